@@ -43,20 +43,22 @@ def tok(t):
 
 def props(p, st):
     out = []
-    for k in sorted(p):
-        if k == 'zz':
+    up = st.get('upper', False)
+    for k0 in sorted(p):
+        if k0 == 'zz':
             continue
-        v = p[k]
-        if k == 'text':
+        v = p[k0]
+        k = k0.upper() if up else k0          # keywords are case-insensitive, values are not
+        if k0 == 'text':
             # the style's delimiter if the text does not contain it, else the first of {} "" '' that it does not contain
             for d in (st['delim'], '{}', '""', "''"):
                 if d[0] not in v and d[1] not in v:
                     break
             else:
                 raise ValueError(f'text {v!r} cannot be written with any DS9 delimiter')
-            out.append(f'text={d[0]}{v}{d[1]}')
-        elif k == 'tag':
-            out.append(f'tag={{{v}}}')
+            out.append(f'{k}={d[0]}{v}{d[1]}')
+        elif k0 == 'tag':
+            out.append(f'{k}={{{v}}}')
         else:
             out.append(f'{k}={v}')
     return ' '.join(out)
